@@ -204,6 +204,96 @@ theorem crossing_result (c sub : Rat) (pts : List Pt) (ls : List Rat) (cur : Opt
         · exact ih _ _ _ h
 
 
+
+/-- SPECIFICATION: the point at arc length `c > 0` from the first point of a polyline whose segments have lengths `ls` -/
+def pointAt : Rat → List Pt → List Rat → Option Pt
+  | c, p :: q :: rest, l :: ls => if c ≤ l then some (lerp p q (c / l)) else pointAt (c - l) (q :: rest) ls
+  | _, _, _ => none
+
+/-- segments that start at or beyond the split length never match -/
+theorem crossing_past (c sub : Rat) (pts : List Pt) (ls : List Rat) (cur : Option Pt)
+    (hl : ∀ l ∈ ls, 0 ≤ l) (h : c ≤ sub) : crossing c sub pts ls cur = cur := by
+  induction ls generalizing sub pts with
+  | nil => cases pts with
+    | nil => simp [crossing]
+    | cons p t => cases t <;> simp [crossing]
+  | cons l ls ih =>
+    cases pts with
+    | nil => simp [crossing]
+    | cons p t =>
+      cases t with
+      | nil => simp [crossing]
+      | cons q rest =>
+        have hl0 : 0 ≤ l := hl l (List.mem_cons_self ..)
+        have hn : ¬ (sub + l ≥ c ∧ c > sub) := fun hc => absurd hc.2 (not_lt.mpr h)
+        simp only [crossing, hn, if_false]
+        exact ih (sub + l) (q :: rest) (fun x hx => hl x (List.mem_cons_of_mem _ hx)) (by linarith)
+
+/-- **the new junction sits at arc length `c` of the vertex polyline**: the loop of the code (last match wins) returns the
+point at distance `c - sub` along the remaining polyline, for all non-negative segment lengths (zero-length segments included) -/
+theorem crossing_eq_pointAt (c sub : Rat) (pts : List Pt) (ls : List Rat) (cur : Option Pt)
+    (hl : ∀ l ∈ ls, 0 ≤ l) (h : sub < c) :
+    crossing c sub pts ls cur = (pointAt (c - sub) pts ls).or cur := by
+  induction ls generalizing sub pts with
+  | nil => cases pts with
+    | nil => simp [crossing, pointAt]
+    | cons p t => cases t <;> simp [crossing, pointAt]
+  | cons l ls ih =>
+    cases pts with
+    | nil => simp [crossing, pointAt]
+    | cons p t =>
+      cases t with
+      | nil => simp [crossing, pointAt]
+      | cons q rest =>
+        have hl' : ∀ x ∈ ls, 0 ≤ x := fun x hx => hl x (List.mem_cons_of_mem _ hx)
+        simp only [crossing, pointAt]
+        by_cases hc : c ≤ sub + l
+        · have h1 : (sub + l ≥ c ∧ c > sub) := ⟨hc, h⟩
+          have h2 : c - sub ≤ l := by linarith
+          simp only [h1, h2, and_self, if_true]
+          rw [crossing_past c (sub + l) (q :: rest) ls _ hl' hc]
+          rfl
+        · have h1 : ¬ (sub + l ≥ c ∧ c > sub) := fun x => hc x.1
+          have h2 : ¬ (c - sub ≤ l) := by intro x; apply hc; linarith
+          simp only [h1, h2, if_false]
+          rw [ih (sub + l) (q :: rest) hl' (by linarith)]
+          have : c - (sub + l) = c - sub - l := by ring
+          rw [this]
+
+example : crossing 10 0 [(0, 0), (6, 0), (6, 8)] [6, 8] none = some (6, 4) := by decide +kernel
+example : pointAt 10 [(0, 0), (6, 0), (6, 8)] [6, 8] = some (6, 4) := by decide +kernel
+
+
+/-- **coordinates of the new junction of a pipe with vertices**: for `0 < f` it is the point at arc length `f · total` of the
+polyline start, vertices…, end; for `f = 0` it is the initial value (the start node in the repaired code) -/
+theorem split_junction_on_polyline (s e : Node) (verts : List Pt) (segLens : List Rat) (f : Rat) (init : Option Pt)
+    (hv : verts ≠ []) (hl : ∀ l ∈ segLens, 0 ≤ l) :
+    (geometry s e verts segLens f init).1 =
+      if 0 < lsum segLens * f then (pointAt (lsum segLens * f) (s.xy :: (verts ++ [e.xy])) segLens).or init else init := by
+  have hne : verts.isEmpty = false := by cases verts <;> simp_all
+  unfold geometry
+  simp only [hne, Bool.false_eq_true, if_false]
+  split_ifs with hc
+  · have := crossing_eq_pointAt (lsum segLens * f) 0 (s.xy :: (verts ++ [e.xy])) segLens init hl hc
+    simpa using this
+  · exact crossing_past (lsum segLens * f) 0 (s.xy :: (verts ++ [e.xy])) segLens init hl (not_lt.mp hc)
+
+/-- non-vacuity: an L-shaped pipe (0,0) → (6,0) → (6,8) cut at 5/7 of its length 14 -/
+example : (geometry ⟨"A", .junction, 0, (0, 0)⟩ ⟨"B", .junction, 0, (6, 8)⟩ [(6, 0)] [6, 8] (5 / 7) none).1 = some (6, 4) := by
+  decide +kernel
+example : (geometry ⟨"A", .junction, 0, (0, 0)⟩ ⟨"B", .junction, 0, (6, 8)⟩ [(6, 0)] [6, 8] 0 (some (0, 0))) = (some (0, 0), [], [(6, 0)]) := by
+  decide +kernel
+example : (geometry ⟨"A", .junction, 0, (0, 0)⟩ ⟨"B", .junction, 0, (6, 8)⟩ [(6, 0)] [6, 8] 1 (some (0, 0))) = (some (6, 8), [(6, 0)], []) := by
+  decide +kernel
+/-- a cut exactly at a vertex: the vertex goes to the second pipe and the junction sits on it -/
+example : (geometry ⟨"A", .junction, 0, (0, 0)⟩ ⟨"B", .junction, 0, (6, 8)⟩ [(6, 0)] [6, 8] (3 / 7) none) = (some (6, 0), [], [(6, 0)]) := by
+  decide +kernel
+example : ∃ k, partitionVerts (0, 0) 10 6 [(6, 0), (6, 8)] [8, 3] = ([(6, 0), (6, 8)].take k, [(6, 0), (6, 8)].drop k) :=
+  split_vertices_partition (0, 0) 10 6 [(6, 0), (6, 8)] [8, 3] (by decide) (by decide)
+example : partitionVerts (0, 0) 10 6 [(6, 0), (6, 8)] [8, 3] = ([(6, 0)], [(6, 8)]) := by decide +kernel
+example : junctionElevation ⟨"A", .junction, 10, (0, 0)⟩ ⟨"T", .tank, 30, (1, 1)⟩ (1 / 4) = 15 := by decide +kernel
+example : junctionElevation ⟨"R", .reservoir, 0, (0, 0)⟩ ⟨"B", .junction, 30, (1, 1)⟩ (1 / 4) = 30 := by decide +kernel
+
 /-! ### break vs split -/
 
 /-- **breaking differs from splitting only in the junctions**: the break adds a second junction at the same
@@ -352,6 +442,19 @@ theorem split_total_pinned_partial (f : Rat) (sl : List Rat) (hf0 : 0 ≤ f) (hf
     · exact absurd hf1 (not_le.mpr h1)
   simp [splitPinned, splitCore, demoNet, Net.pipe?, hfr, Net.nodeNames, Net.linkNames, Net.node?, geometry, isOk]
 
+
+/-- the pinned code and the repaired code agree on EVERY network whenever the split pipe has neither a check valve nor vertices
+(the two `_partial` statements at full generality) -/
+theorem split_pinned_eq_repaired (net : Net) (pn np : String) (nj : List String) (atEnd : Bool) (f : Rat) (sl : List Rat) (isBreak : Bool)
+    (p : Pipe) (hp : net.pipe? pn = some p) (hcv : p.cv = false) (hv : p.verts = []) :
+    splitPinned net pn np nj atEnd f sl isBreak = splitOrBreak net pn np nj atEnd f sl isBreak := by
+  unfold splitPinned splitOrBreak splitCore
+  simp only [hp, hcv, geometry, hv, List.isEmpty_nil, if_true]
+
+example : splitPinned (demoNet false []) "P" "N" ["J"] false (1 / 4) [] true = splitOrBreak (demoNet false []) "P" "N" ["J"] false (1 / 4) [] true :=
+  split_pinned_eq_repaired _ _ _ _ _ _ _ _
+    { name := "P", a := "A", b := "B", length := 100, diam := 1, rough := 100, minor := 0, initStatus := 1, status := 1, cv := false, verts := [] }
+    (by decide +kernel) rfl rfl
 
 /-! ### skeletonization -/
 
@@ -706,5 +809,100 @@ def demoSkel : Skel := Skel.init
 example : (Skel.run (1 / 5) demoSkel [.trim "J2", .trim "J1"]).nodes.map (·.name) = ["R", "J1", "T"] := by decide +kernel
 example : mapGet (Skel.run (1 / 5) demoSkel [.trim "J2"]).map "J1" = ["J1", "J2"] := by decide +kernel
 example : skelOracle demoSkel (Skel.run (1 / 5) demoSkel [.trim "J2", .series "J1" "R" "T"]) = "ok" := by decide +kernel
+
+/-! ### the cycle loop of `_Skeletonize.run` terminates -/
+
+theorem junctionCount_absorb (nodes : List SNode) (j c : String) (dj : List Dem) :
+    ((absorbNode nodes j c dj).filter (fun n => n.kind == .junction)).length ≤ (nodes.filter (fun n => n.kind == .junction)).length := by
+  rw [absorbNode_eq, List.filter_map]
+  have : ((fun n : SNode => n.kind == NodeKind.junction) ∘ addDem c dj) = fun n : SNode => n.kind == NodeKind.junction := by
+    funext n; simp [addDem_kind]
+  rw [List.length_map, this]
+  exact ((List.filter_sublist (l := nodes)).filter _).length_le
+
+/-- no step ever adds a junction -/
+theorem step_junctionCount_le (thr : Rat) (s : Skel) (op : SkelOp) : (Skel.step thr s op).junctionCount ≤ s.junctionCount := by
+  cases op with
+  | trim j =>
+    simp only [Skel.step, branchTrim]
+    split
+    · exact Nat.le_refl _
+    · split_ifs
+      · exact Nat.le_refl _
+      · split
+        · split
+          · split_ifs
+            · exact junctionCount_absorb _ _ _ _
+            · exact Nat.le_refl _
+          · exact Nat.le_refl _
+        · exact Nat.le_refl _
+  | series j n0 n1 =>
+    simp only [Skel.step, seriesMerge]
+    split
+    · exact Nat.le_refl _
+    · split_ifs
+      · exact Nat.le_refl _
+      · exact Nat.le_refl _
+      · split
+        · split_ifs
+          · split
+            · exact Nat.le_refl _
+            · exact junctionCount_absorb _ _ _ _
+          · exact Nat.le_refl _
+        · exact Nat.le_refl _
+  | parallel j n p0 p1 =>
+    simp only [Skel.step, parallelMerge]
+    split_ifs
+    · exact Nat.le_refl _
+    · split
+      · split_ifs <;> exact Nat.le_refl _
+      · exact Nat.le_refl _
+
+theorem run_junctionCount_le (thr : Rat) (ops : List SkelOp) (s : Skel) : (Skel.run thr s ops).junctionCount ≤ s.junctionCount := by
+  induction ops generalizing s with
+  | nil => exact Nat.le_refl _
+  | cons op t ih => exact Nat.le_trans (ih _) (step_junctionCount_le thr s op)
+
+/-- **`run` terminates**: whatever a pass does, as long as it never adds junctions (true of every sequence of steps,
+`run_junctionCount_le`), the `while flag` loop stops within `junctionCount + 1` passes, for every `max_cycles` -/
+theorem run_terminates (cycle : Skel → Skel) (hc : ∀ s, (cycle s).junctionCount ≤ s.junctionCount) (mc : Option Nat)
+    (fuel iter : Nat) (s : Skel) (hf : s.junctionCount < fuel) : (runLoop cycle mc fuel iter s).isSome = true := by
+  induction fuel generalizing iter s with
+  | zero => omega
+  | succ n ih =>
+    unfold runLoop
+    simp only
+    split_ifs with hstop
+    · rfl
+    · apply ih
+      have hne : ¬ (cycle s).junctionCount = s.junctionCount := by
+        intro e; apply hstop; simp [e]
+      have := hc s
+      omega
+
+/-- non-vacuity: passes given as op lists; the loop ends after the pass that removes nothing (here the 2nd) although `max_cycles = 0` … -/
+example : (runLoop (fun s => Skel.run (1 / 5) s [.trim "J2", .trim "J1"]) none 5 0 demoSkel).map (·.nodes.map (·.name)) = some ["R", "J1", "T"] := by
+  decide +kernel
+/-- … and `max_cycles = 0` still performs one pass (`iteration > max_cycles` is tested after the increment) -/
+example : (runLoop (fun s => Skel.run (1 / 5) s [.trim "J2"]) (some 0) 5 0 demoSkel).map (·.nodes.map (·.name)) = some ["R", "J1", "T"] := by
+  decide +kernel
+
+/-! ### non-vacuity of the hypotheses used above -/
+
+def demoPipe : Pipe := { name := "P", a := "A", b := "B", length := 100, diam := 1, rough := 100, minor := 0, initStatus := 1, status := 1, cv := true, verts := [(5, 5)] }
+
+example : SplitHyp (demoNet true [(5, 5)]) "P" "N" ["J", "K"] 0 demoPipe ⟨"A", .junction, 10, (0, 0)⟩ ⟨"B", .junction, 20, (10, 0)⟩ where
+  hp := by decide +kernel
+  hs := by decide +kernel
+  he := by decide +kernel
+  hf0 := by decide
+  hf1 := by decide
+  hres := by decide
+  hj := by decide
+  hl := by decide
+
+example : (names demoSkel.nodes).Nodup ∧ (demoSkel.links.map (·.name)).Nodup := by decide
+example : (Skel.run (1 / 5) demoSkel [.trim "J2", .trim "J1"]).junctionCount = 1 := by decide +kernel
+
 
 end Wntr.Morph
